@@ -532,6 +532,11 @@ class CallMixin:
         vj = z3.substitute(val.t, (j, jj))
         cj = z3.substitute(cond, (j, jj))
         n = lty.len(it.t)
+        if not conds and val.ty == lty.elem and not enum:
+            v0 = z3.simplify(val.t)
+            e0 = z3.simplify(z3.Select(lty.arr(it.t), j))
+            if z3.eq(v0, e0) or (gen.target and isinstance(elt, ast.Call) and dotted(elt.func) == "int" and lty.elem is TInt):
+                return SV(lty, it.t)  # identity map: a copy of the source list
         if not conds:
             arr = self.ctx.fresh_term(z3.ArraySort(z3.IntSort(), val.ty.sort()), "map")
             self.ctx.assume(sorts.forall([jj], z3.Implies(z3.And(0 <= jj, jj < n), z3.Select(arr, jj) == vj), patterns=[z3.Select(arr, jj)]))
